@@ -114,4 +114,52 @@ theorem serializeInto_consA (ps : List LayerInfo) (x : AnyObj) (os : List AnyObj
   rw [semsAux_consA]
   rfl
 
+theorem out_unique {w : Out Bytes} {a b : Bytes} (h1 : w = .ok a) (h2 : w = .ok b) : a = b := by
+  have := h1.symm.trans h2
+  injection this
+
+/-! ### the shape of the one-layer step -/
+
+/-- `append_padding_` of a Dot1Q is object state that is not on the wire (KF-C04-L2-4); parsed objects never have it -/
+def NoApp (o : AnyObj) : Prop := ∀ q, o = .l2 (.dot1q q) → q.appendPadding = false
+
+/-- the conclusion of `fix_all` -/
+def FixStep (x x' : AnyObj) (os os' : List AnyObj) (cx' : Ctx) (io out : Bytes) (k e2 : Nat) : Prop :=
+  x'.hdr + x'.trl (sizeOfStack os') + e2 = x.hdr + x.trl (sizeOfStack os) + (if e2 = 0 then 0 else k) ∧
+  ∀ region' : Bytes, region'.length = x'.hdr + sizeOfStack os' + x'.trl (sizeOfStack os') →
+    (region'.drop x'.hdr).take (sizeOfStack os') = io ++ List.replicate e2 0 →
+    x'.write cx' region' = .ok (out ++ List.replicate (if e2 = 0 then 0 else k) 0)
+
+/-- classes without a trailer below which no padding arrives: the class lemma gives the step -/
+theorem fix_of_simple (x x' : AnyObj) (os os' : List AnyObj) (cx' : Ctx) (region io out : Bytes) (k : Nat)
+    (ht : x.trl (sizeOfStack os) = 0)
+    (hlen : region.length = x.hdr + sizeOfStack os + x.trl (sizeOfStack os))
+    (hio : (region.drop x.hdr).take (sizeOfStack os) = io)
+    (hsz : sizeOfStack os' = sizeOfStack os + 0)
+    (hcls : x'.hdr = x.hdr ∧ (∀ n, x'.trl n = 0) ∧
+      ∀ region' : Bytes, region'.length = region.length → region'.drop x.hdr = region.drop x.hdr →
+        x'.write cx' region' = .ok out) :
+    FixStep x x' os os' cx' io out k 0 := by
+  obtain ⟨hh, ht', hwr⟩ := hcls
+  refine ⟨by rw [hh, ht', ht]; simp, ?_⟩
+  intro region' hlen' hio'
+  rw [hh, ht', hsz, Nat.add_zero] at hlen'
+  rw [hh, hsz, Nat.add_zero, List.replicate_zero, List.append_nil] at hio'
+  rw [ht] at hlen
+  simp only [if_pos, List.replicate_zero, List.append_nil]
+  apply hwr region' (by omega)
+  have h1 : (region'.drop x.hdr).take (sizeOfStack os) = region'.drop x.hdr :=
+    List.take_of_length_le (by simp only [List.length_drop]; omega)
+  have h2 : (region.drop x.hdr).take (sizeOfStack os) = region.drop x.hdr :=
+    List.take_of_length_le (by simp only [List.length_drop]; omega)
+  rw [← h1, ← h2, hio, hio']
+
+/-- under the name of a class that tolerates no padding nothing follows the region -/
+theorem k_zero_of_not_padOK {ps : List LayerInfo} {n : String} {x : AnyObj} {k : Nat} (hk : PadCondN ps n x k)
+    (h1 : ¬ PadOK x) (h2 : isEapol x = false) : k = 0 := by
+  rcases hk with h | ⟨_, h | ⟨he, _⟩⟩
+  · exact h
+  · exact absurd h h1
+  · rw [h2] at he; cases he
+
 end Tins.Wire.ChainAll
